@@ -146,7 +146,11 @@ CLAIMED = {
        "histories on a model with symbolic secrets (Model/Group: a world of parties = tree-layer private state + epoch + epoch secret; executable commit with path-secret chain, seals, decap, "
        "Welcome): invariant_holds / agreement (every reachable world: parties at the same epoch hold the same epoch and init secret), new_epoch_secret_is_committers, "
        "receiver_computes_committers_commit_secret (whatever position it decrypts at), receiver_not_stuck / commit_never_stuck (progress for every entitled party), joiner_gets_members_state; "
-       "tie: every history is replayed as `g.init` / `g.commit` rows and the model must print the real tree and, as `g.classes`, the partition of all parties (members and removed members' "
+       "EXTERNAL COMMITS are a step of the model (GroupWorld.externalCommit: optional Remove of the committer's old leaf, insertion at the leftmost blank leaf after the trim, path with no excluded leaves, init secret from "
+       "KEM randomness sealed to the key derived from the old epoch's external secret) and of `Reachable`, so every theorem above covers histories with external commits; in addition "
+       "external_commit_epoch_secret, external_commit_delivered_members_advance, external_commit_never_stuck, external_committer_gets_members_state, external_commit_receivers_tree (the receivers' insertion of the "
+       "path's leaf node gives the committer's tree and slots); "
+       "tie: every history is replayed as `g.init` / `g.commit` / `g.external` rows and the model must print the real tree and, as `g.classes`, the partition of all parties (members and removed members' "
        "retained groups) by epoch secret that the real groups' epoch authenticators give (~5k rows per quick run).",
   note="Trusted: Lean kernel; hand-written tree model validated by the stream; harness oracles. Not a theorem: success of the real HPKE open (C14 covers the construction), the "
        "transcript-hash chain over real messages, mixed cipher suites/providers (quick uses RustCrypto suite 1). Fixed defects found by this check: F1, F15.",
@@ -160,7 +164,11 @@ CLAIMED = {
        "removed member's retained Group is fed all later commits and must reject them. MlsVerif.Props.C02Group (composed model with symbolic secrets and a Dolev-Yao derivability relation): "
        "removed_member_forward_secrecy / removed_ghost_forward_secrecy / outsider_forward_secrecy — from its last state and all public seals a party removed by a path commit derives no path, "
        "commit or epoch secret of that or any later epoch (hypothesis NoReintro: no key it knows is re-introduced; machine-checked negative example for a path-less Remove), "
-       "ciphertext_recipients, welcome_alone / welcome_contents, closure_sound; tie: the `g.*` rows of the replayed histories.",
+       "ciphertext_recipients, welcome_alone / welcome_contents, closure_sound. With external commits as a step of the model: ciphertext_recipients_ext (every seal goes to a key of the new tree or "
+       "to the external key of a current member's epoch secret), external_init_known_to_old_members, removed_by_external_commit_holds_no_key / _cannot_derive and resync_old_state_forward_secrecy (the OLD state of a "
+       "re-synchronising member gives nothing for later epochs), outsider_forward_secrecy_ext, never_member_learns_no_epoch_secret (the GroupInfo and every node key give no epoch secret), "
+       "external_committer_learns_nothing_earlier (the joiner derives no epoch or init secret of the old world: the init chain is cut), init_chain_secrecy; welcome_alone now asks that the party's secrets depend on no "
+       "ROOT of an init chain (genesis or an external committer's KEM randomness) - with genesis alone it is false once external commits exist; tie: the `g.*` rows of the replayed histories incl. `g.external`.",
   note="Trusted: Lean kernel, tree model validated by the stream, recording wrapper. 'Learns nothing' is symbolic: it follows from removed_cannot_open_seals under free-term crypto; "
        "side condition FreshKeys (a Remove plus an Add re-using the removed member's HPKE key is accepted by the model and the code: readd_same_key).",
   ref="DESIGN.md §4 C02"),
